@@ -1850,6 +1850,36 @@ let norm_cond w ci cj =
     ((&&) ((&&) (Z.ltb (Zpos XH) ci) (Z.ltb ci (neg_one w)))
       ((||) (Z.leb cj hp) (Z.leb hmm cj)))
 
+(** val phase2_inner :
+    z -> nat -> nat list -> (expr * bool) -> expr * bool **)
+
+let phase2_inner w i others pn =
+  fold_left (fun pn0 j ->
+    let ps = fst pn0 in
+    if norm_cond w (coef_at ps i) (coef_at ps j)
+    then let ni = wadd w (coef_at ps i) (half_mod w) in
+         let nj = wadd w (coef_at ps j) (half_mod w) in
+         ((upd_coef j nj (upd_coef i ni ps)),
+         ((||) ((||) (snd pn0) (Z.eqb ni Z0)) (Z.eqb nj Z0)))
+    else pn0) others pn
+
+(** val phase2_step :
+    z -> ((expr * (z list * nat list) list) * bool) -> nat -> (expr * (z
+    list * nat list) list) * bool **)
+
+let phase2_step w st i =
+  let parts = fst (fst st) in
+  let by_red = snd (fst st) in
+  let need = snd st in
+  if Nat.eqb (length (vars_at parts i)) O
+  then st
+  else let key0 = dedup (vars_at parts i) in
+       (match assoc_l key0 by_red with
+        | Some others ->
+          let r = phase2_inner w i others (parts, need) in
+          (((fst r), (assoc_l_push key0 i by_red)), (snd r))
+        | None -> ((parts, (assoc_l_push key0 i by_red)), need))
+
 (** val norm_phase2 : z -> expr -> expr **)
 
 let norm_phase2 w a =
@@ -1859,30 +1889,9 @@ let norm_phase2 w a =
   if existsb (fun p ->
        (&&) (negb (Nat.eqb (length (snd p)) O))
          ((||) (Z.leb (fst p) hp) (Z.leb hmm (fst p)))) a
-  then let (p, need) =
-         fold_left (fun st i ->
-           let (y, need) = st in
-           let (parts, by_red) = y in
-           if Nat.eqb (length (vars_at parts i)) O
-           then st
-           else let key0 = dedup (vars_at parts i) in
-                (match assoc_l key0 by_red with
-                 | Some others ->
-                   let (parts', need') =
-                     fold_left (fun pn j ->
-                       let (ps, nd) = pn in
-                       if norm_cond w (coef_at ps i) (coef_at ps j)
-                       then let ni = wadd w (coef_at ps i) hm in
-                            let nj = wadd w (coef_at ps j) hm in
-                            ((upd_coef j nj (upd_coef i ni ps)),
-                            ((||) ((||) nd (Z.eqb ni Z0)) (Z.eqb nj Z0)))
-                       else pn) others (parts, need)
-                   in
-                   ((parts', (assoc_l_push key0 i by_red)), need')
-                 | None -> ((parts, (assoc_l_push key0 i by_red)), need)))
-           (seq O (length a)) ((a, []), false)
+  then let r = fold_left (phase2_step w) (seq O (length a)) ((a, []), false)
        in
-       let (parts, _) = p in if need then filter nonzero parts else parts
+       if snd r then filter nonzero (fst (fst r)) else fst (fst r)
   else a
 
 (** val e_normalize : z -> expr -> expr **)
@@ -1973,6 +1982,22 @@ let e_symb_evaluate w a func =
        (match fold_left step a (Some []) with
         | Some m -> Some (amap_parts m)
         | None -> None))
+
+(** val singles_unique_b : z -> expr -> bool **)
+
+let singles_unique_b v a =
+  Nat.leb (length (filter (is_single v) a)) (S O)
+
+(** val const_first_b : expr -> bool **)
+
+let const_first_b a =
+  forallb (fun p -> negb (Nat.eqb (length (snd p)) O)) (tl a)
+
+(** val shape_ok_b : expr -> bool **)
+
+let shape_ok_b a =
+  (&&) (const_first_b a)
+    (forallb (fun v -> singles_unique_b v a) (e_variables a))
 
 type ipst = { ip_tape : tmap; ip_ptr : z; ip_io : iost; ip_budget : z;
               ip_stack : z list list }
